@@ -88,7 +88,7 @@ theorem step_logical16 (x a b : UInt8) (ty v : Nat) (h1 : x.toNat / 32 = 1) (h2 
   simp [parsePadded, h1, h2, h3, hv]
 
 theorem step_logical32 (x a b c d : UInt8) (ty v : Nat) (h1 : x.toNat / 32 = 1) (h2 : x.toNat % 32 / 4 * 4 = ty)
-    (h3 : x.toNat % 4 = 3) (hv : a.toNat + 256 * b.toNat + 65536 * c.toNat + 16777216 * d.toNat = v)
+    (h3 : x.toNat % 4 = 2) (hv : a.toNat + 256 * b.toNat + 65536 * c.toNat + 16777216 * d.toNat = v)
     (rest : Bytes) (k : Nat) :
     parsePadded (k + 1) (x :: 0 :: a :: b :: c :: d :: rest) = (parsePadded k rest).map (PSeg.logical ty v :: ·) := by
   simp [parsePadded, h1, h2, h3, hv]
@@ -111,17 +111,17 @@ theorem segok_logical16 (ty : Nat) (h4 : ty % 4 = 0) (h32 : ty < 32) (v : Nat) (
   rw [toNat_ofNat, toNat_ofNat]; omega
 
 theorem segok_logical32 (ty : Nat) (h4 : ty % 4 = 0) (h32 : ty < 32) (v : Nat) (hv : v ≤ 4294967295) :
-    SegOK [UInt8.ofNat (32 ||| ty ||| 3), 0, UInt8.ofNat (v % 256), UInt8.ofNat (v / 256 % 256),
+    SegOK [UInt8.ofNat (32 ||| ty ||| 2), 0, UInt8.ofNat (v % 256), UInt8.ofNat (v / 256 % 256),
            UInt8.ofNat (v / 256 / 256 % 256), UInt8.ofNat (v / 256 / 256 / 256)] (PSeg.logical ty v) := by
   refine ⟨by simp, by simp, ?_⟩
   intro rest fuel hf
   obtain ⟨k, rfl⟩ : ∃ k, fuel = k + 1 := ⟨fuel - 1, by simp at hf; omega⟩
-  obtain ⟨h1, h2, h3⟩ := head_byte ty 3 h4 h32 (by omega)
+  obtain ⟨h1, h2, h3⟩ := head_byte ty 2 h4 h32 (by omega)
   refine step_logical32 _ _ _ _ _ _ _ h1 h2 h3 ?_ _ _
   rw [toNat_ofNat, toNat_ofNat, toNat_ofNat, toNat_ofNat]; omega
 
 theorem lookupFormat : Gen.LOGICAL_SEGMENT_TYPE = 32 ∧ lookupNat 1 Gen.logicalFormat = some 0 ∧
-    lookupNat 2 Gen.logicalFormat = some 1 ∧ lookupNat 4 Gen.logicalFormat = some 3 := by decide
+    lookupNat 2 Gen.logicalFormat = some 1 ∧ lookupNat 4 Gen.logicalFormat = some 2 := by decide
 
 /-- `LogicalSegment` with an int value below 2^32 -/
 theorem encLogical_int (ltype : Name) (ty : Nat) (hty : lookupName ltype Gen.logicalTypes = some ty)
